@@ -39,4 +39,34 @@ theorem reachable_ipInv (keyOf : Val → Nat) (mi pt localKey : Nat) (ops : List
   Ip.foldl_all keyOf mi pt ops _ hops (init_tinv _ localKey) (Ip.init_ipInv localKey)
     (Ip.init_vmk keyOf localKey)
 
+/-! ### Non-vacuity -/
+
+/-- The bucket filter does refuse: a third record of subnet 7 is rejected, … -/
+example : ipBucketFilter ⟨3, some 7⟩ [⟨1, some 7⟩, ⟨2, some 7⟩] = false := by decide
+/-- … a record identical to a stored one is not counted against itself, … -/
+example : ipBucketFilter ⟨1, some 7⟩ [⟨1, some 7⟩, ⟨2, some 7⟩] = true := by decide
+/-- … and a record without IPv4 address passes. -/
+example : ipBucketFilter ⟨3, none⟩ [⟨1, some 7⟩, ⟨2, some 7⟩] = true := by decide
+
+/-- `Bucket.insert` with the IP configuration reports the refusal. -/
+example : (({ nodes := [⟨4, ⟨4, some 7⟩, ⟨true, false⟩, 0⟩, ⟨5, ⟨5, some 7⟩, ⟨true, false⟩, 0⟩],
+              fcp := some 0 } : Bucket Val).insert (ipCfg 8 60) 0
+            ⟨6, ⟨6, some 7⟩, ⟨true, false⟩, 0⟩).2 = .failedFilter := by decide
+
+/-- The hypothesis of `reachable_ipInv` is satisfiable by a non-trivial history (`keyOf := id`). -/
+example : ∀ op ∈ ([.insertOrUpdate 0 4 ⟨4, some 7⟩ ⟨true, false⟩,
+      .insertOrUpdate 1 5 ⟨5, some 7⟩ ⟨true, false⟩, .insertOrUpdate 2 6 ⟨6, some 7⟩ ⟨true, false⟩,
+      .insertOrUpdate 3 7 ⟨7, some 8⟩ ⟨false, false⟩] : List (Op Val)), op.Respects (·.id) := by
+  intro op h
+  simp only [List.mem_cons, List.not_mem_nil, or_false] at h
+  rcases h with rfl | rfl | rfl | rfl <;> rfl
+
+/-- On that history the table really refuses the third node of subnet 7 in bucket 2 (keys 4–7)
+and keeps the others. -/
+example : (((([.insertOrUpdate 0 4 ⟨4, some 7⟩ ⟨true, false⟩,
+      .insertOrUpdate 1 5 ⟨5, some 7⟩ ⟨true, false⟩, .insertOrUpdate 2 6 ⟨6, some 7⟩ ⟨true, false⟩,
+      .insertOrUpdate 3 7 ⟨7, some 8⟩ ⟨false, false⟩] : List (Op Val)).foldl
+        (Table.step (ipCfg 8 60)) (Table.init 0)).bucket 2).nodes.map (·.key)) = [7, 4, 5] := by
+  set_option maxRecDepth 8000 in decide
+
 end Discv5.KB
